@@ -3,6 +3,7 @@ C28: the vocabulary of the property statement — what the theorems in
 `ElvProofs/C28.lean` say about the model.
 -/
 import ElvModel.C28.Model
+import ElvModel.C28.CodeArea
 namespace C28
 open Go
 
@@ -29,5 +30,88 @@ def lineStart (buf : Bytes) (p : Nat) : Nat := findLastSOL (buf.take p)
 /-- display column of offset `p`: width of the text between the start of its line and `p` -/
 def column (E : Env) (buf : Bytes) (p : Nat) : Nat :=
   wcOf E ((buf.take p).drop (lineStart buf p))
+
+/-- the three word flavours of buffer_builtins.go -/
+inductive Flavour where
+  | word | smallWord | alnumWord
+  deriving DecidableEq, Repr
+
+def Flavour.cat (E : Env) : Flavour → Categorizer
+  | .word => categorizeWord E
+  | .smallWord => categorizeSmallWord E
+  | .alnumWord => categorizeAlnum E
+
+def Flavour.left : Flavour → Mover
+  | .word => .leftWord
+  | .smallWord => .leftSmallWord
+  | .alnumWord => .leftAlnumWord
+
+def Flavour.right : Flavour → Mover
+  | .word => .rightWord
+  | .smallWord => .rightSmallWord
+  | .alnumWord => .rightAlnumWord
+
+/-! ### code area -/
+
+/-- abbreviation tables hold valid UTF-8 -/
+def AbbrOK (l : List (Bytes × Bytes)) : Prop :=
+  ∀ p ∈ l, validUtf8 p.1 = true ∧ validUtf8 p.2 = true
+
+/-- assumptions on the configuration: abbreviations and their expansions are
+valid UTF-8, and `parse.Quote` maps valid UTF-8 to valid UTF-8 -/
+structure SpecOK (S : Spec) : Prop where
+  simple : AbbrOK S.simple
+  command : AbbrOK S.command
+  smallWord : AbbrOK S.smallWord
+  quote : ∀ t, validUtf8 t = true → validUtf8 (S.quote t) = true
+
+/-- invariant of the code area state: the buffer is valid UTF-8 with the dot
+on a character boundary; `inserts` is a suffix of the text left of the dot of
+`lastCodeBuffer` (the `inserts` / `lastCodeBuffer` bookkeeping that makes the
+slice expressions of the abbreviation expanders safe); the paste buffer is
+valid UTF-8. -/
+structure Inv (s : State) : Prop where
+  bnd : Boundary s.buffer.content s.buffer.dot
+  ins : ∃ p, s.last.content.take s.last.dot.toNat = p ++ s.inserts
+  paste : validUtf8 s.pasteBuffer = true
+
+/-- `b'` is `b` with the text `a` that ends at the dot replaced by `f` (dot after `f`) -/
+def ReplacedAtDot (b b' : CodeBuffer) (a f : Bytes) : Prop :=
+  ∃ x, b.content.take b.dot.toNat = x ++ a ∧
+    b' = ⟨x ++ f ++ b.content.drop b.dot.toNat, ((x ++ f).length : Int)⟩
+
+/-- the dot of `b` is at the end, `b.content = x ++ a ++ w`, and `b'` is `x ++ f ++ w` with the dot at the end -/
+def ReplacedBeforeLast (b b' : CodeBuffer) (a f w : Bytes) : Prop :=
+  b.dot = b.content.length ∧
+    ∃ x, b.content = x ++ a ++ w ∧ b' = ⟨x ++ f ++ w, ((x ++ f ++ w).length : Int)⟩
+
+/-- `InsertAtDot(text)` as a relation -/
+def Inserted (b : CodeBuffer) (text : Bytes) : CodeBuffer :=
+  ⟨b.content.take b.dot.toNat ++ text ++ b.content.drop b.dot.toNat, b.dot + (text.length : Int)⟩
+
+/-- what a graphic key may do to the buffer: plain insertion of `string(rune)`,
+possibly followed by exactly one abbreviation expansion -/
+def KeyInsertEffect (S : Spec) (b b' : CodeBuffer) (str : Bytes) : Prop :=
+  b' = Inserted b str ∨
+  (∃ a f, (a, f) ∈ S.simple ∧ a ≠ [] ∧ ReplacedAtDot (Inserted b str) b' a f) ∨
+  (∃ a e w, (a, e) ∈ S.command ∧ e ≠ [] ∧ w.length = 1 ∧ ReplacedBeforeLast (Inserted b str) b' a e w) ∨
+  (∃ a f, (a, f) ∈ S.smallWord ∧ a ≠ [] ∧ ReplacedBeforeLast (Inserted b str) b' a f str)
+
+/-- is the key a function key (`key.Mod != 0 || key.Rune < 0`)? -/
+def Key.isFunc (key : Key) : Bool := key.mod != 0 || key.rune < 0
+
+/-- `ui.K(ui.Backspace)` or `ui.K('H', ui.Ctrl)` -/
+def Key.isBackspace (key : Key) : Prop := key = ⟨backspace, 0⟩ ∨ key = ⟨72, modCtrl⟩
+
+/-- a freshly created code area with the given buffer -/
+def initState (b : CodeBuffer) : State :=
+  { buffer := b, inserts := [], last := ⟨[], 0⟩, pasting := false, pasteBuffer := [] }
+
+/-- run a sequence of events -/
+def runEvents (E : Env) (S : Spec) : State → List Event → Res State
+  | s, [] => pure s
+  | s, e :: rest => do
+    let (s', _) ← step E S s e
+    runEvents E S s' rest
 
 end C28
